@@ -372,13 +372,14 @@ def check_fix_property(s, hint):
                     reference_table='lean/I18n/Spec/TimezonesRef.lean (tzdata 2014e, hand-maintained)')
     if ref[0] != 'ok':
         if abbr is not None and len(TZ()[abbr]) != 1:
+            refoffs = tables()[0].get(abbr) or []
+            if len(refoffs) == 1 and t[16:] not in refoffs:
+                return dict(base, kind=f'wrong offset: the zone abbreviation {abbr} means {refoffs[0]} (reference table), the date is normalised to {t[16:]}',
+                            key=f'C18:abbr-wrong-offset:{abbr}')
             return dict(base, kind=f'accepted-although-ambiguous: the zone abbreviation {abbr} has stood for {" ".join(TZ()[abbr])}, '
                                    f'the date is normalised to {t[16:]} instead of being rejected', key=f'C18:abbr-ambiguous-accepted:{abbr}')
         return dict(base, kind=f'accepted, the statement says {ref[1]}', key='C18:fix-accepts-invalid')
     if ref[1] != t:
-        if abbr is not None and ref[1][:16] == t[:16]:
-            return dict(base, kind=f'wrong offset: the zone abbreviation {abbr} means {ref[1][16:]}, the date is normalised to {t[16:]}',
-                        key=f'C18:abbr-wrong-offset:{abbr}')
         return dict(base, kind='date, time or offset written in the input not kept', key='C18:fix-not-preserved')
     return None
 
